@@ -453,6 +453,8 @@ class AttachScenario(object):
             ctx.chained = ME.futures.f_zip(f, other)
         elif op == "f_nocancel":
             ctx.chained = ME.futures.f_nocancel(f)
+        elif op == "f_proxy":
+            ctx.chained = ME.futures.f_proxy(f, timeout=0.5)
 
     def end_work(self, ctx):
         w = ctx.w
